@@ -225,7 +225,14 @@ async fn run_%(m)s(reqs: &[serde_json::Value]) -> serde_json::Value {
     let port = listener.local_addr().unwrap().port();
     let incoming: pavex::server::IncomingStream = listener.try_into().unwrap();
     let server = pavex::server::Server::new().listen(incoming);
-    let handle = sdk_%(m)s::run(server, state);
+    // `run` builds the generated `Router` (every `insert(..).unwrap()`): a panic there is an answer (C07)
+    let handle = match std::panic::catch_unwind(std::panic::AssertUnwindSafe(|| sdk_%(m)s::run(server, state))) {
+        Ok(h) => h,
+        Err(p) => {
+            let msg = p.downcast_ref::<String>().cloned().or_else(|| p.downcast_ref::<&str>().map(|s| s.to_string())).unwrap_or_default();
+            return serde_json::json!({"start_panic": msg, "init_trace": init_trace});
+        }
+    };
     let mut out = Vec::new();
     for r in reqs {
         app::rt::set_script(script_of(r));
